@@ -376,7 +376,7 @@ impl FaultRun {
     }
 }
 
-pub fn run<G: ParRig>(seed: u64, nworlds: usize, max_k: u64, skip: &[String], op_limit: usize, scene_ops: usize) -> FaultRun {
+pub fn run<G: ParRig>(seed: u64, nworlds: usize, max_k: u64, skip: &[String], only: &[String], op_limit: usize, scene_ops: usize) -> FaultRun {
     crate::deser::install_panic_recorder();
     fuse::VERBOSE.store(1, std::sync::atomic::Ordering::Relaxed);
     let mut run = FaultRun { stats: FaultStats::default(), viols: Vec::new(), samples: Vec::new() };
@@ -442,6 +442,9 @@ pub fn run<G: ParRig>(seed: u64, nworlds: usize, max_k: u64, skip: &[String], op
             ops.push(FaultOp::ParQuery { qi, consumer: rng.below(2) as u8 });
         }
         ops.retain(|op| !skip.iter().any(|s| *s == op.name()));
+        if !only.is_empty() {
+            ops.retain(|op| only.iter().any(|s| *s == op.name()));
+        }
         if op_limit > 0 && ops.len() > op_limit {
             rng.shuffle(&mut ops);
             ops.truncate(op_limit);
